@@ -148,7 +148,15 @@ def real_pipeline(sb, text, settings, title='T', mod='M', fname='case.cmake'):
                 return orig(docs)
             d.process_docs = hooked
             w = d.process()
-            return dict(rst=str(w), entries=snap['entries'], errors=logs.errors)
+            rst = str(w)
+            # what a user gets is the page on disk: the writer's own write_to_file() must put exactly the serialised text there (UTF-8);
+            # if it does not, the file's text is what every oracle judges
+            page = os.path.join(sb.dir, 'page_of_' + os.path.basename(fname) + '.rst')
+            w.write_to_file(page)
+            with open(page, 'r', encoding='utf-8', newline='') as f: on_disk = f.read()
+            os.unlink(page)
+            if on_disk != rst: return dict(rst=on_disk, serialised=rst, written_differs=True, entries=snap['entries'], errors=logs.errors)
+            return dict(rst=rst, entries=snap['entries'], errors=logs.errors)
         except RecursionError:
             raise
         except BaseException as e:
